@@ -13,7 +13,7 @@ CHECKS = {
    technique="deterministic simulation: seeded + exhaustive-short operation histories on the real stores over a simulated disk, checked step by step against a reference map model",
    text="Every API result of every generated history equals the reference model's (sets of permitted answers where the documentation is silent); after close the simulated disk's mutation log must stay frozen. Exhaustive for histories of length <=3 (quick) / <=4 (thorough) over a collision alphabet under 32 option sets, sampled beyond. Exploration, not proof: histories are sampled."),
  "C05": dict(engine="session", cat="exploration", ref="4/C05",
-   technique="deterministic simulation: seeded put histories on four writers over a simulated disk; finalized image decoded by an independent reference codec, byte-exact payload and index-record comparison, then the library's Inspect(true) and VerifyCar",
+   technique="deterministic simulation: seeded put histories on four writers over a simulated disk; finalized image decoded by an independent reference codec, byte-exact payload and index-record comparison, then the library's Inspect(true), VerifyCar and a read-only store over the file that must return every stored block",
    text="The finalized image of every generated session must be byte-identical in its payload to the reference encoding of the model's sections, with exact header arithmetic and an index holding exactly one correct record per indexed section; sampled over options and writers."),
  "C12": dict(engine="session", cat="exploration", ref="4/C12",
    technique="deterministic simulation: restart (Discard/Finalize + reopen) as a generated operation on a simulated disk; byte-identity of the final file against the uninterrupted session; mutation-log check on refused reopen",
@@ -23,29 +23,29 @@ CHECKS = {
    text="After every step of every generated history: no stream write and no file before the first Put attempt; afterwards the target's bytes equal a direct writer's; callbacks fire per the registration-order model; ErrClosed after Close. Sampled histories over both targets and swarm-drawn options."),
  "C06": dict(engine="crash", cat="fault_enumeration", ref="4/C06",
    technique="deterministic simulation with crash injection: the session's write log on a simulated disk is cut at every write boundary and byte offset (torn last write), each crash image is reopened, queried, continued and finalized; oracle from acknowledged/invoked sets and the reference codec",
-   text="For each generated session every crash point (all boundaries; all bytes in thorough, structural bytes in quick) is enumerated, so within a session the crash dimension is covered completely; sessions (options, block mix, prior history) are sampled. Two crash points are listed as known findings (torn 24-byte header record, D10)."),
+   text="For each generated session every crash point (all boundaries; all bytes in thorough, structural bytes in quick) is enumerated, so within a session the crash dimension is covered completely; sessions (options, block mix, prior history) are sampled. After a successful resume the session is continued; one put of the continuation is itself cut (boundaries and torn writes: a second crash) and resumed again. Ten signatures of one defect (D3: a crash between index and header under ZeroLengthSectionAsEOF with an index over 1 KiB) are listed as known findings."),
  "C16": dict(engine="fault", cat="fault_enumeration", ref="4/C16",
    technique="deterministic simulation with I/O fault injection: every write call of a session on the simulated disk/stream is failed once (0,err) and short-written (j,err) at every byte, the client carries on (optionally retrying), and the final image is compared with the reference encoding of exactly the acknowledged blocks",
    text="For each generated session every single-fault plan is enumerated (plus sampled two-fault plans); sessions are sampled. The oracle is relaxed only as the property allows: after a fault the store may refuse to go on (then the archive clause is vacuous and counted separately), it may never report a failed block or return wrong bytes."),
  "C02": dict(engine="medium", cat="fault_enumeration", ref="4/C02",
-   technique="deterministic simulation with medium-fault injection: every truncation offset and bit flip of reference-built archives, delivered through simulated sources of every capability profile and chunking, read by each verifying reader; harness-side rehash of every returned block",
-   text="Per generated image the truncation dimension is enumerated completely and the bit-flip dimension completely in block data/digest bytes (all bits everywhere in thorough); large-section images get chunk-aligned cuts instead. Images, profiles and deliveries are sampled."),
+   technique="deterministic simulation with medium-fault injection: every truncation offset and bit flip of reference-built archives, delivered through simulated sources of every capability profile and chunking, read by each verifying reader (hash clause and truncation clause) and each scanning-only reader (SkipNext directly and over Reader.DataReader, Inspect(false), GenerateIndex, AllKeysChan of a store with a supplied index: truncation clause); harness-side rehash of every returned block",
+   text="Per generated image the truncation dimension is enumerated completely and the bit-flip dimension completely in block data/digest bytes (all bits everywhere in thorough); large-section images (64 KiB - 2.5 MiB) get chunk-aligned cuts instead. Images, profiles and deliveries are sampled."),
  "C03": dict(engine="medium", cat="exploration", ref="4/C03",
-   technique="deterministic simulation of the byte source: the same valid archive is handed to every index producer through every capability profile (plain stream .. ReadSeeker+ReaderAt) and delivery plan; results compared with a reference scan",
+   technique="deterministic simulation of the byte source: the same valid archive is handed to every index producer through every capability profile (plain stream .. ReadSeeker+ReaderAt, a pipe-like source whose Seek fails, a source the caller has already read from) and delivery plan; results compared with a reference scan",
    text="GetAll / GetFirst / ForEach of every produced index must equal the reference scan's offset sets for section CIDs and near-miss probes, identically for seekable and streamed sources. Sampled images and deliveries."),
  "C13": dict(engine="medium", cat="exploration", ref="4/C13",
    technique="deterministic simulation with medium-fault injection (boundary values in every located field, truncations, flips, extents) and differential oracle Inspect(true) vs verifying BlockReader scan, statistics recomputed from the scan",
    text="Accept/reject equivalence and statistics equality on every accepted container among the enumerated faults of each generated image, under ZeroLengthSectionAsEOF and size-limit variants. Sampled images."),
  "C14": dict(engine="medium", cat="exploration", ref="4/C14",
    technique="deterministic simulation of the byte source: all Next/SkipNext choice strings x capability profiles x delivery plans on reference-built archives; metadata checked against the reference section table and consumption observed at the source seam",
-   text="Exhaustive over choice strings for images of <=6 blocks and over the six reader capability profiles; images and chunkings sampled. The high-water mark of the simulated source decides the 'never consumed past the payload' clause."),
+   text="Exhaustive over choice strings for images of <=6 blocks and over the seven simulated capability profiles plus bytes.Reader, *os.File and Reader.DataReader (fresh and pre-read); images and chunkings sampled. Results held by the caller (blocks, metadata pointers) are re-checked after the iteration. The high-water mark of the simulated source decides the 'never consumed past the payload' clause."),
  "C08": dict(engine="sched", cat="exploration", ref="4/C08",
    technique="deterministic simulation of the goroutine schedule: go-car's mutexes and file types substituted by simulator types, all tasks parked at every lock / simulated I/O / client yield inside a testing/synctest bubble, a seeded PRNG picks who runs (replayable pick list); recorded history checked for linearizability with porcupine; separate race-detector pass for the memory-level clause",
    text="Seeded search over interleavings of 2-16 client tasks on one shared store: no panic, no deadlock, linearizable history against the map+typestate model, each acknowledged block exactly once in the finalized file. The 'no data races' clause is decided by the Go race detector on the same programs under the runtime's own schedules (monitoring, not simulation) because memory accesses cannot be intercepted at any seam.",
-   note="lock model without writer preference; channel hand-offs of key listings are not scheduling points; race pass is sound but schedule-dependent; " + TRUST),
+   note="lock model with Go's writer preference (a waiting Lock excludes later RLocks); channel hand-offs of key listings are not scheduling points; race pass is sound but schedule-dependent; " + TRUST),
  "C09": dict(engine="medium", cat="exploration", ref="4/C09",
-   technique="deterministic simulation with medium-fault injection (hostile length/offset/count fields, truncation, flips, extents, garbage, injected read errors) delivered through simulated sources to 19 parsing entry points; each case announced and run in a supervised child process; panic / process-death / non-termination / allocation-bound oracles; allocation site identified from the runtime's allocation profile",
-   text="No panic, no process death, termination within a source-call budget, and TotalAlloc within limits + 1024*len + 1 MiB for every generated case under small configured limits; exact-maximum acceptance and max+1 rejection on valid files. One allocation site in a dependency (go-cid CidFromReader) is a known finding.",
+   technique="deterministic simulation with medium-fault injection (hostile length/offset/count fields, truncation, flips, extents, garbage, injected read errors) delivered through simulated sources to 21 parsing entry points; each case announced and run in a supervised child process; panic / process-death / non-termination / allocation-bound oracles; allocation site identified from the runtime's allocation profile",
+   text="No panic, no process death, termination within a source-call budget, and TotalAlloc within limits + 1024*len + 1 MiB for every generated case under small configured limits; exact-maximum acceptance and max+1 rejection on valid files, per constructor and per buffering lookup. Known findings: two allocation sites inside dependencies (go-cid CidFromReader D16, refmt CBOR strings D18) and storage.StorageCar.Get not applying the section limit (D23).",
    note="the constant of 'proportional to the input size' is chosen by the harness (1024/byte + 1 MiB); child processes run under ulimit -v 6 GiB; " + TRUST),
 }
 
